@@ -16,6 +16,10 @@ T('C04', 'exhaustive product-space enumeration of (table shape x value pattern x
   'Bounded exhaustive model checking of the real implementation: every configuration of the declared finite alphabet and every point of the (T,P) region lattice (interior, 4 edges, 4 corners, exact nodes) is executed and compared with an independent clamped bilinear / exp-linear reference plus bracket, sign, node and zero-corner invariants. Small-scope: a defect of the dispatch needs one of the 9 regions x 2 modes x 2 layouts, all of which are covered.',
   'numpy/numba trusted; float values only on the value lattice; outside the grid only the stated invariants (bracket, non-negative, finite) are demanded')
 
+T('C01', 'exhaustive bounded enumeration (deviation-bounded product of 10 configuration dimensions) of real TransmissionModel runs against an independent slant-path reference integral',
+  'Bounded exhaustive model checking of the real forward model: every configuration of the finite alphabet (layers 2-7, 5 opacity magnitudes from transparent to saturated incl. mixed-per-wavenumber, all 16 contribution subsets, both path methods, pressure ranges, planets, stars, temperature and abundance profiles, both interpolation modes) with <= 2 (thorough 3) deviations plus the full core product is built from fresh objects and compared layer-by-layer with a reference written from the documented integral (explicit spherical-shell chord geometry, own opacity interpolation, tau>10 licence computed per layer), plus geometry invariants and the four stated consequences.',
+  'numba/numpy trusted; density/altitude/mixing profiles read from the model (C10/C11 decide them); Rayleigh and Lee-Mie weighted cross-sections read as data (C03/C19 decide them); small-scope hypothesis')
+
 
 def main():
     props = [json.loads(l) for l in open(os.path.join(VERIF, 'properties.jsonl'))]
